@@ -6,7 +6,7 @@
    equality of terms is "indistinguishable": default priorities, polyhedron and solutions are
    functions of the term (the aliasing / purity aspect — "leaves the original unchanged" — is
    property C09; in this functional model the original is a value and cannot change). *)
-Require Import Puan.Base Puan.Plog Puan.Sem Puan.Cons Puan.Config Puan.ConfigFacts.
+Require Import Puan.Base Puan.Plog Puan.Sem Puan.Cons Puan.Config Puan.ConfigFacts Puan.ConfigAll.
 Open Scope string_scope.
 
 (* one addition: the result of add() on the configurator built from `args` is the configurator
@@ -58,3 +58,44 @@ Proof.
   cbn. repeat constructor; cbn; intuition discriminate.
 Qed.
 Print Assumptions C18_nonvacuous.
+
+(* the same with the weakest guard — exactly what add() itself checks (since fix D16 the configurator counts every rule it
+   was given, so the OLD rules need not have pairwise distinct ids): each new rule's id names none of the rules present
+   when it is added *)
+Theorem C18_add_every :
+  forall (genid : genid_t) (o : oid_t) (args : list prop) (r : prop),
+    ~ In (id_of r) (map id_of args) ->
+    stingy_add genid (c_stingy genid o args) r =
+    Some (c_stingy genid (Some (id_of (c_stingy genid o args), (0, 1))) (args ++ [r])).
+Proof. exact add_is_direct_all. Qed.
+Print Assumptions C18_add_every.
+
+Theorem C18_seq_every :
+  forall (genid : genid_t) (rs : list prop) (o : oid_t) (args : list prop),
+    rs <> [] -> each_new args rs ->
+    stingy_adds genid (c_stingy genid o args) rs =
+    Some (c_stingy genid (Some (id_of (c_stingy genid o args), (0, 1))) (args ++ rs)).
+Proof. exact adds_is_direct_all. Qed.
+Print Assumptions C18_seq_every.
+
+(* ... and a chain in which some rule is not new is refused as a whole: the two theorems decide every chain *)
+Theorem C18_seq_refused :
+  forall (genid : genid_t) (rs : list prop) (o : oid_t) (args : list prop),
+    ~ each_new args rs -> stingy_adds genid (c_stingy genid o args) rs = None.
+Proof. exact adds_refused_all. Qed.
+Print Assumptions C18_seq_refused.
+
+(* non-vacuity: the old rules z and z' share the id "z" (not NoDup, so C18_seq does not apply); adding m then q *)
+Definition c18_z2 : prop := Node (mk KAll) "z" false 0 1 1 2 [Var "a" 0 1; Var "c" 0 1].
+Example C18_every_nonvacuous :
+  ~ NoDup (map id_of ([c18_z; c18_z2] ++ [c18_m; c18_q])) /\ each_new [c18_z; c18_z2] [c18_m; c18_q] /\
+  option_map (fun c => (map id_of (children c), value_of c)) (stingy_adds c18_g (c_stingy c18_g None [c18_z; c18_z2]) [c18_m; c18_q])
+    = Some (["m"; "q"; "z"; "z"], 4) /\
+  ~ each_new [c18_z; c18_z2] [c18_m; c18_z] /\ stingy_adds c18_g (c_stingy c18_g None [c18_z; c18_z2]) [c18_m; c18_z] = None.
+Proof.
+  split. { cbn. intros H. inversion H as [|? ? Hn _]; subst. apply Hn. cbn. auto. }
+  split. { cbn. repeat split; intuition discriminate. }
+  split; [vm_compute; reflexivity|]. split; [|vm_compute; reflexivity].
+  cbn. intros (_ & H & _). apply H. auto.
+Qed.
+Print Assumptions C18_every_nonvacuous.
